@@ -1,0 +1,12 @@
+//go:build verif
+
+package http_api
+
+import "net/http"
+
+// SimHandler exposes the fully configured router (middlewares, error handler,
+// routes) as an http.Handler so that the deterministic-simulation harness in
+// /verif can serve requests in-process without a socket.
+func (p *RESTApiProvider) SimHandler() http.Handler {
+	return p.echoInstance
+}
